@@ -35,9 +35,9 @@ import (
 
 func TestMain(m *testing.M) { vstat.Main(m) }
 
-const ruleCreate = "create cluster --insecure-keys through the real CLI (cmd.New) into a temp dir: nodes 3..10, threshold default or 2..n, validators 1..3, network in {goerli, sepolia, hoodi, gnosis, chiado}, deposit amounts default or partial sets, compounding on/off; " +
+const ruleCreate = "create cluster --insecure-keys through the real CLI (cmd.New) into a temp dir: nodes 3..10, threshold default or 2..n, validators 1..3, network in {goerli, sepolia, hoodi, gnosis, chiado}, deposit amounts default or partial sets, compounding on/off; every third case through --definition-file with a harness-written definition of a drawn format version v1.0..v1.11 (unsigned operators, deposit amounts also unordered / repeated where the version carries them): the lock must then have that version and the config hash of the provided definition; " +
 	"oracle: every node's lock is identical and passes VerifyHashes + VerifySignatures, keystore i/j decrypts to a secret whose public key is lock.validators[j].public_shares[i], every deposit datum and builder registration verifies (harness-side spec verification) for the lock's validator key / amount / withdrawal credentials, a drawn t-subset of shares recombines to the validator key, combine output keystores match; non-trivial = t < n or > 1 deposit amount or > 1 validator; distinct by configuration"
-const ruleTamper = "tamper evidence: valid locks (cluster.NewForT for v1.10 / v1.11, the committed cluster/examples locks v1.1, v1.2, v1.7: full hash+signature verification; the per-version golden locks v1.0..v1.11: hash verification) x every leaf of the JSON document x representative alteration (hex nibble flip, character change, +-1, bool flip, value emptied / zeroed, key removed, element removed / duplicated / swapped); altered document must fail to unmarshal, or fail VerifyHashes, or fail VerifySignatures; " +
+const ruleTamper = "tamper evidence: valid locks and definitions (harness-assembled locks of every format version v1.0..v1.11 - definition signed by every operator where the version has EIP-712 signatures, deposit data, registrations, aggregate and node signatures re-made over the recomputed lock hash - and the definitions embedded in them as definition files: full hash+signature verification; v1.11 locks with 2/3/5-fold Safe multisig signatures: hash verification; cluster.NewForT for v1.10 / v1.11, the committed cluster/examples locks v1.1, v1.2, v1.7: full hash+signature verification; the per-version golden locks v1.0..v1.11: hash verification) x every leaf of the JSON document x representative alteration (hex nibble flip, character change, +-1, bool flip, value emptied / zeroed, key removed, element removed / duplicated / swapped); altered document must fail to unmarshal, or fail VerifyHashes, or fail VerifySignatures; " +
 	"leaves outside the hashed / signed declaration (operator nonce of v1.0/v1.1; signature fields in hash-only mode) assert nothing; non-trivial = every (base, path, alteration)"
 
 var forkVersions = map[string]string{"goerli": "00001020", "gnosis": "00000064", "chiado": "0000006f", "sepolia": "90000069", "hoodi": "10000910"}
@@ -81,32 +81,93 @@ func TestC12Create(t *testing.T) {
 		compounding := rapid.Bool().Draw(rt, "compounding")
 		withdrawal := "0x" + strings.Repeat("ab", 19) + fmt.Sprintf("%02x", rapid.IntRange(0, 255).Draw(rt, "addrByte"))
 		fee := "0x" + strings.Repeat("cd", 20)
+		// Every third case goes through --definition-file: the definition (any format version, unsigned
+		// operators, deposit amounts in any order and with repeats where the version carries them) is
+		// written by the harness with the exported constructor, the CLI turns it into a cluster.
+		viaDef := rapid.IntRange(0, 2).Draw(rt, "viaDefinitionFile") == 0
+		defVersion := ""
+		var providedDef cluster.Definition
 
 		dir, err := os.MkdirTemp("", "verif-c12-")
 		if err != nil {
 			rt.Fatalf("HARNESS-ERROR: %v", err)
 		}
 		defer os.RemoveAll(dir)
-		args := []string{"create", "cluster", "--insecure-keys", fmt.Sprintf("--nodes=%d", n), fmt.Sprintf("--num-validators=%d", vals), "--network=" + network,
-			"--cluster-dir=" + dir, "--fee-recipient-addresses=" + fee, "--withdrawal-addresses=" + withdrawal, "--name=verif"}
-		if thr != 0 {
-			args = append(args, fmt.Sprintf("--threshold=%d", thr))
-		}
-		if amounts != nil {
-			var as []string
-			for _, a := range amounts {
-				as = append(as, fmt.Sprint(a))
+		var args []string
+		if viaDef {
+			defVersion = rapid.SampledFrom(allVersions).Draw(rt, "definitionVersion")
+			vn := verNum(defVersion)
+			if thr == 0 {
+				thr = (2*n + 2) / 3
 			}
-			args = append(args, "--deposit-amounts="+strings.Join(as, ","))
-		}
-		if compounding {
-			args = append(args, "--compounding")
+			if network == "gnosis" {
+				network = "hoodi" // insecure keys are refused for gnosis in this flow
+			}
+			if vn < 8 {
+				amounts = nil
+			} else if amounts != nil && rapid.Bool().Draw(rt, "amountsUnordered") {
+				amounts = rapid.SampledFrom([][]int{{24, 8}, {16, 8, 8}, {8, 16, 8}, {31, 1}, {29, 2, 1}, {8, 8, 8, 8}, {32, 1}}).Draw(rt, "unorderedAmounts")
+			}
+			if vn < 10 {
+				compounding = false
+			}
+			gas := uint(0)
+			if vn >= 10 {
+				gas = uint(rapid.SampledFrom([]int{30000000, 36000000, 60000000}).Draw(rt, "gasLimit"))
+			}
+			fees, wds := make([]string, vals), make([]string, vals)
+			csFee, err1 := eth2util.ChecksumAddress(fee)
+			csWd, err2 := eth2util.ChecksumAddress(withdrawal)
+			if err1 != nil || err2 != nil {
+				rt.Fatalf("HARNESS-ERROR: checksum address: %v %v", err1, err2)
+			}
+			for j := range fees {
+				fees[j], wds[j] = csFee, csWd
+			}
+			opts := []func(*cluster.Definition){cluster.WithVersion(defVersion)}
+			if vn < 5 {
+				opts = append(opts, cluster.WithLegacyVAddrs(csFee, csWd))
+			}
+			providedDef, err = cluster.NewDefinition("verif", vals, thr, fees, wds, "0x"+forkVersions[network], cluster.Creator{}, make([]cluster.Operator, n), amounts, "", gas, compounding, rand.New(rand.NewSource(int64(n*1000+vals))), opts...)
+			if err != nil {
+				rt.Fatalf("HARNESS-ERROR: definition %s: %v", defVersion, err)
+			}
+			db, err := json.Marshal(providedDef)
+			if err != nil {
+				rt.Fatalf("HARNESS-ERROR: %v", err)
+			}
+			defPath := filepath.Join(dir, "definition.json")
+			if err := os.WriteFile(defPath, db, 0o600); err != nil {
+				rt.Fatalf("HARNESS-ERROR: %v", err)
+			}
+			args = []string{"create", "cluster", "--insecure-keys", "--definition-file=" + defPath, "--cluster-dir=" + dir}
+		} else {
+			args = []string{"create", "cluster", "--insecure-keys", fmt.Sprintf("--nodes=%d", n), fmt.Sprintf("--num-validators=%d", vals), "--network=" + network,
+				"--cluster-dir=" + dir, "--fee-recipient-addresses=" + fee, "--withdrawal-addresses=" + withdrawal, "--name=verif"}
+			if thr != 0 {
+				args = append(args, fmt.Sprintf("--threshold=%d", thr))
+			}
+			if amounts != nil {
+				var as []string
+				for _, a := range amounts {
+					as = append(as, fmt.Sprint(a))
+				}
+				args = append(args, "--deposit-amounts="+strings.Join(as, ","))
+			}
+			if compounding {
+				args = append(args, "--compounding")
+			}
 		}
 		root := cmd.New()
 		root.SetArgs(args)
 		root.SetOut(new(bytes.Buffer))
 		root.SetErr(new(bytes.Buffer))
 		if err := root.ExecuteContext(context.Background()); err != nil {
+			if viaDef {
+				// a definition the CLI refuses is not an artifact; nothing to check (counted)
+				vstat.Count("definition_refused(no assertion):"+defVersion, 1)
+				rt.Skip("definition refused: " + err.Error())
+			}
 			rt.Fatalf("create cluster %v failed: %v", args, err)
 		}
 		effThr := thr
@@ -135,6 +196,14 @@ func TestC12Create(t *testing.T) {
 		}
 		if err := lock.VerifySignatures(nil); err != nil {
 			rt.Fatalf("written lock fails signature verification: %v", err)
+		}
+		if viaDef {
+			if lock.Version != defVersion {
+				rt.Fatalf("DEFINITION CHANGED: lock has format version %s, the provided definition %s", lock.Version, defVersion)
+			}
+			if !bytes.Equal(lock.ConfigHash, providedDef.ConfigHash) {
+				rt.Fatalf("DEFINITION CHANGED: the lock's config hash %x is not the config hash %x of the definition it was created from (%s, deposit amounts %v)", lock.ConfigHash, providedDef.ConfigHash, defVersion, amounts)
+			}
 		}
 		if len(lock.Validators) != vals || len(lock.Operators) != n || lock.Threshold != effThr {
 			rt.Fatalf("lock has %d validators / %d operators / threshold %d, asked for %d / %d / %d", len(lock.Validators), len(lock.Operators), lock.Threshold, vals, n, effThr)
@@ -251,7 +320,7 @@ func TestC12Create(t *testing.T) {
 				}
 				perAmount[eth2p0.Gwei(pd.Amount)]++
 			}
-			if len(v.PartialDepositData) == 0 {
+			if len(v.PartialDepositData) == 0 && (!viaDef || verNum(defVersion) >= 6) {
 				rt.Fatalf("LOCK DEPOSIT: validator %d carries no deposit data in the lock", j)
 			}
 			if amounts != nil {
@@ -311,7 +380,7 @@ func TestC12Create(t *testing.T) {
 			rt.Fatalf("COMBINE: %d distinct combined keys, want %d", len(got), vals)
 		}
 		nontrivial := effThr < n || len(amounts) > 1 || vals > 1
-		vstat.Case(fmt.Sprintf("%d/%d/%d/%s/%v/%v", n, thr, vals, network, amounts, compounding), nontrivial, "create", "network:"+network, cls("partial_deposits", len(amounts) > 1), cls("compounding", compounding), cls("custom_threshold", thr != 0))
+		vstat.Case(fmt.Sprintf("%d/%d/%d/%s/%v/%v/%s", n, thr, vals, network, amounts, compounding, defVersion), nontrivial, "create", "network:"+network, cls("via_definition_file:"+defVersion, viaDef), cls("partial_deposits", len(amounts) > 1), cls("compounding", compounding), cls("custom_threshold", thr != 0))
 		if nontrivial && vstat.WantSample("create") {
 			vstat.Sample("create", map[string]any{"nodes": n, "threshold": effThr, "validators": vals, "network": network, "deposit_amounts": amounts, "compounding": compounding, "lock_version": lock.Version})
 		}
@@ -366,7 +435,33 @@ type base struct {
 	full bool // signatures verifiable too
 }
 
+func isDefinitionDoc(doc []byte) bool {
+	var m map[string]json.RawMessage
+	if json.Unmarshal(doc, &m) != nil {
+		return false
+	}
+	_, isLock := m["cluster_definition"]
+	_, isDef := m["operators"]
+	return !isLock && isDef
+}
+
+// verifyLock decodes and verifies a lock, or a definition file when the document is one.
 func verifyLock(doc []byte, full bool) error {
+	if isDefinitionDoc(doc) {
+		var def cluster.Definition
+		if err := json.Unmarshal(doc, &def); err != nil {
+			return fmt.Errorf("unmarshal: %w", err)
+		}
+		if err := def.VerifyHashes(); err != nil {
+			return fmt.Errorf("hashes: %w", err)
+		}
+		if full {
+			if err := def.VerifySignatures(nil); err != nil {
+				return fmt.Errorf("signatures: %w", err)
+			}
+		}
+		return nil
+	}
 	var lock cluster.Lock
 	if err := json.Unmarshal(doc, &lock); err != nil {
 		return fmt.Errorf("unmarshal: %w", err)
@@ -419,9 +514,35 @@ func bases(t *testing.T) []base {
 			out = append(out, base{fmt.Sprintf("NewForT/%s/%dv-%dof%d", v, shape[0], shape[1], shape[2]), b, true})
 		}
 	}
+	// harness-assembled locks of every format version (full verification)
+	shapes := [][3]int{{2, 3, 4}}
+	if vstat.Thorough() {
+		shapes = [][3]int{{1, 2, 3}, {2, 3, 4}, {3, 4, 6}, {1, 7, 10}}
+	}
+	for _, v := range allVersions {
+		for i, sh := range shapes {
+			out = append(out, assembledBase(t, shape{version: v, dv: sh[0], k: sh[1], n: sh[2], seed: 11 + i, amountsEth: [][]int{{8, 24}, {32}, {1, 2, 29}, nil}[i%4], compound: i%2 == 0, consensus: []string{"", "qbft"}[i%2]}))
+		}
+	}
+	// v1.11 locks whose creator / operator signatures are Safe multisig signatures (several concatenated
+	// 65 byte signatures): they cannot be verified without an execution client, so hash verification only
+	for i, cnt := range []int{2, 3, 5} {
+		out = append(out, multisigBase(t, shape{version: "v1.11.0", dv: 1, k: 2, n: 3, seed: 31 + i, amountsEth: []int{32}}, cnt))
+	}
+	// the definitions embedded in the full bases, as definition files of their own
+	for _, b := range out {
+		if !b.full {
+			continue
+		}
+		var doc map[string]json.RawMessage
+		if err := json.Unmarshal(b.doc, &doc); err != nil || doc["cluster_definition"] == nil {
+			t.Fatalf("HARNESS-ERROR: %s has no cluster_definition", b.name)
+		}
+		out = append(out, base{"definition-of/" + b.name, doc["cluster_definition"], true})
+	}
 	for _, b := range out {
 		if err := verifyLock(b.doc, b.full); err != nil {
-			if strings.HasPrefix(b.name, "NewForT") {
+			if strings.HasPrefix(b.name, "NewForT") || strings.Contains(b.name, "assembled/") {
 				t.Fatalf("HARNESS-ERROR: base %s does not verify unaltered: %v", b.name, err)
 			}
 			// a committed, valid artifact of a supported format version stopped verifying: its hashes
@@ -614,7 +735,14 @@ func TestC12Tamper(t *testing.T) {
 			// An alteration of the text that decodes to the identical value (unused trailing bits of a
 			// base64 string, letter case of hex digits) changes no field.
 			var l0, l1 cluster.Lock
-			if json.Unmarshal(b.doc, &l0) == nil && json.Unmarshal(doc, &l1) == nil && reflect.DeepEqual(l0, l1) {
+			var d0, d1 cluster.Definition
+			same := false
+			if isDefinitionDoc(b.doc) {
+				same = json.Unmarshal(b.doc, &d0) == nil && json.Unmarshal(doc, &d1) == nil && reflect.DeepEqual(d0, d1)
+			} else {
+				same = json.Unmarshal(b.doc, &l0) == nil && json.Unmarshal(doc, &l1) == nil && reflect.DeepEqual(l0, l1)
+			}
+			if same {
 				vstat.Count("alteration_decodes_to_same_value(no assertion)", 1)
 				return false, false
 			}
@@ -622,9 +750,13 @@ func TestC12Tamper(t *testing.T) {
 		}
 		return true, false
 	}
-	if exhaustive {
-		// every leaf x every alteration of every base
-		for _, b := range bs {
+	{
+		// every leaf x every alteration of every base (quick tier: of the multisig bases and of one
+		// assembled lock per format version, which are the shapes no committed file has)
+		for bi, b := range bs {
+			if !exhaustive && !(strings.HasPrefix(b.name, "multisig2") || (strings.HasPrefix(b.name, "assembled/") && bi%3 == int(vstat.Seed()%3))) {
+				continue
+			}
 			dec := json.NewDecoder(bytes.NewReader(b.doc))
 			dec.UseNumber()
 			var root any
@@ -633,7 +765,7 @@ func TestC12Tamper(t *testing.T) {
 			collectLeaves(root, "", nil, "", 0, &ls, &arrs)
 			for _, l := range ls {
 				for _, kind := range []string{"plus1", "flip", "empty", "removeKey"} {
-					for _, pos := range []int{0, 3, 17} {
+					for _, pos := range []int{0, 3, 17, 141, 300, 1<<20 - 1} {
 						if (kind == "empty" && pos > 3) || (kind == "removeKey" && pos > 0) {
 							continue
 						}
@@ -653,7 +785,9 @@ func TestC12Tamper(t *testing.T) {
 				}
 			}
 		}
-		vstat.Exhaustive()
+		if exhaustive {
+			vstat.Exhaustive()
+		}
 	}
 	rapid.Check(t, func(rt *rapid.T) {
 		b := bs[rapid.IntRange(0, len(bs)-1).Draw(rt, "base")]
@@ -672,7 +806,7 @@ func TestC12Tamper(t *testing.T) {
 			path = ls[rapid.IntRange(0, len(ls)-1).Draw(rt, "leaf")].path
 			kind = rapid.SampledFrom([]string{"plus1", "flip", "plus1", "flip", "empty", "removeKey"}).Draw(rt, "kind")
 		}
-		pos := rapid.IntRange(0, 200).Draw(rt, "pos")
+		pos := rapid.IntRange(0, 2000).Draw(rt, "pos")
 		asserted, skipped := check(func(f string, a ...any) { rt.Fatalf(f, a...) }, b, path, kind, pos, arrayOp)
 		if skipped {
 			rt.Skip("alteration not applicable")
@@ -688,6 +822,24 @@ func TestC12Tamper(t *testing.T) {
 func TestC12ReEncode(t *testing.T) {
 	vstat.Rule("C12", "re-encode: every committed definition and lock (examples and per-version golden files) and the generated locks: unmarshal -> marshal -> unmarshal leaves config / definition / lock hashes and VerifyHashes unchanged")
 	for _, b := range bases(t) {
+		if isDefinitionDoc(b.doc) {
+			var d1, d2 cluster.Definition
+			if err := json.Unmarshal(b.doc, &d1); err != nil {
+				t.Fatalf("HARNESS-ERROR: %v", err)
+			}
+			enc, err := json.Marshal(d1)
+			if err != nil {
+				t.Fatalf("RE-ENCODE: %s does not marshal: %v", b.name, err)
+			}
+			if err := json.Unmarshal(enc, &d2); err != nil {
+				t.Fatalf("RE-ENCODE: %s re-encoded form does not decode: %v", b.name, err)
+			}
+			if !bytes.Equal(d1.DefinitionHash, d2.DefinitionHash) || !bytes.Equal(d1.ConfigHash, d2.ConfigHash) || d2.VerifyHashes() != nil {
+				t.Fatalf("RE-ENCODE: %s: hashes changed by decode / encode", b.name)
+			}
+			vstat.Case("reencode/"+b.name, true, "reencode_definition")
+			continue
+		}
 		var l1, l2 cluster.Lock
 		if err := json.Unmarshal(b.doc, &l1); err != nil {
 			t.Fatalf("HARNESS-ERROR: %v", err)
